@@ -123,8 +123,18 @@ func TestVerif_C01_Envelopes(t *testing.T) {
 			acct.Violation(id, "TestVerif_C01_Envelopes", map[string]any{"kind": vKindNames[kind], "window": window, "trace": trace, "msg": msg})
 			rt.Fatalf("%s: %s\n%s", id, msg, strings.Join(trace, "\n"))
 		}
+		// what was handed to the application stays what it was: every delivered payload is kept and compared again at
+		// the end of the session (after forgeries and further opens went through the same store)
+		type kept struct {
+			got, snap []byte
+			what      string
+		}
+		var delivered []kept
 		honest := func(d *vDev, m *c01Msg, when string) {
 			o, err := vOpen(d, g, m.env, vCID(m.env))
+			if err == nil {
+				delivered = append(delivered, kept{o.Payload, append([]byte(nil), o.Payload...), fmt.Sprintf("#%d opened at %s %s", m.counter, d.name, when)})
+			}
 			trace = append(trace, fmt.Sprintf("honest open of #%d (len %d) at %s %s -> err=%v", m.counter, len(m.payload), d.name, when, err))
 			if err != nil {
 				fail("honest-rejected/"+when, "genuine envelope counter %d (payload %d bytes) rejected at %s: %v", m.counter, len(m.payload), d.name, err)
@@ -144,6 +154,13 @@ func TestVerif_C01_Envelopes(t *testing.T) {
 			openBefore[i] = rapid.Bool().Draw(rt, fmt.Sprintf("before%d", i))
 			if openBefore[i] {
 				honest(w.R, m, "before-forgeries")
+				// the same message also reaches R outside the store (push); the cleartext handed out is the sealed unit
+				if _, _, clear, _, err := w.R.s.OpenOutOfStoreMessage(vctx, c14Push(w.S, g, m.env)); err == nil {
+					if !bytes.Equal(clear, vWrap(m.payload)) && !bytes.Equal(clear, m.payload) {
+						fail("honest-wrong-payload", "genuine message counter %d delivered out of store with different content", m.counter)
+					}
+					delivered = append(delivered, kept{clear, append([]byte(nil), clear...), fmt.Sprintf("#%d delivered out of store at R before-forgeries", m.counter)})
+				}
 			}
 			if len(m.payload) > 0 {
 				nonEmptyHonest = true
@@ -292,6 +309,18 @@ func TestVerif_C01_Envelopes(t *testing.T) {
 		nextEnv := vSeal(w.S, g, nextP)
 		honest(w.R, &c01Msg{env: nextEnv, payload: nextP, counter: future}, "future-counter-after-forgery")
 		honest(w.M, target, "at-third-member")
+		for _, k := range delivered {
+			if !bytes.Equal(k.got, k.snap) {
+				fail("delivered-payload-changed", "the payload handed out for %s changed afterwards (%d bytes; first difference at byte %d)", k.what, len(k.snap), func() int {
+					for i := range k.snap {
+						if i >= len(k.got) || k.got[i] != k.snap[i] {
+							return i
+						}
+					}
+					return -1
+				}())
+			}
+		}
 
 		var cl []string
 		for c := range classes {
